@@ -170,7 +170,7 @@ impl Property for C01 {
                 Phase { threads, then }
             })
             .collect();
-        let w = Work { hot: g.chance(2, 3), variant: g.below(4) as u8, present: (0..nkeys).map(|_| g.chance(5, 6)).collect(), phases, id_style: *g.pick(&[0u8, 0, 0, 0, 1, 2, 3, 4]) };
+        let w = Work { hot: g.chance(2, 3), variant: g.below(4) as u8, present: (0..nkeys).map(|_| g.chance(5, 6)).collect(), phases, id_style: *g.pick(&[0u8, 0, 0, 0, 0, 1, 2, 3, 4, 5, 6]) };
         (knobs, serde_json::to_value(w).unwrap())
     }
     fn execute(&self, case: &Case) -> Outcome {
